@@ -247,3 +247,88 @@ M("c19-solver-jac-from-raw-compile", "C19", SCIPY,
         c_jac_fn = lambda x, rows=_rows: np.array([r(x) for r in rows])''', "R19.4", "constraint-dict")
 M("c19-hess-log-dense-unsanitised", "C19", AUTODIFF,
   '''                    return np.diag(_sanitize_derivatives(-1.0 / (x**2)))''', '''                    return np.diag(-1.0 / (x**2))''', "R19.1", "hess_log")
+
+# ----------------------------------------------------------------------------- C06
+M("c06-drop-not-violated", "C06", SCIPY,
+  '''    if result.success and not constraints_violated:
+        status = SolverStatus.OPTIMAL''', '''    if result.success:
+        status = SolverStatus.OPTIMAL''', "R06.1", "solve_scipy:OPTIMAL")
+M("c06-new-message-optimal-arm", "C06", SCIPY,
+  '''    else:
+        status = SolverStatus.FAILED
+
+    # Compute actual objective value''', '''    elif "precision loss" in result.message.lower():
+        status = SolverStatus.OPTIMAL
+    else:
+        status = SolverStatus.FAILED
+
+    # Compute actual objective value''', "R06.1", "solve_scipy:OPTIMAL")
+M("c06-break-in-loop", "C06", SCIPY,
+  '''                max_violation = max(max_violation, violation)
+                constraints_violated = True
+            elif c["type"] == "eq"''', '''                max_violation = max(max_violation, violation)
+                constraints_violated = True
+                break
+            elif c["type"] == "eq"''', "R06.2", "feasibility-loop")
+M("c06-check-at-x0", "C06", SCIPY,
+  '''            c_val = c["fun"](result.x)''', '''            c_val = c["fun"](x0)''', "R06.2", "feasibility-loop")
+M("c06-flip-ineq-sign", "C06", SCIPY,
+  '''            if c["type"] == "ineq" and c_val < -scaled_tol:''', '''            if c["type"] == "ineq" and c_val > scaled_tol:''', "R06.2", "feasibility-loop")
+M("c06-eq-not-checked", "C06", SCIPY,
+  '''            elif c["type"] == "eq" and abs(c_val) > scaled_tol:''', '''            elif c["type"] == "eq" and c_val > scaled_tol:''', "R06.2", "feasibility-loop")
+M("c06-retry-drops-tol", "C06", SCIPY,
+  '''            x0=x0,
+            tol=tol,
+            maxiter=maxiter,''', '''            x0=x0,
+            maxiter=maxiter,''', "R06.4", "retry")
+M("c06-lp-status-swapped", "C06", LP,
+  '''    elif result.status == 2:  # Infeasible
+        status = SolverStatus.INFEASIBLE
+    elif result.status == 3:  # Unbounded
+        status = SolverStatus.UNBOUNDED''', '''    elif result.status == 3:  # Infeasible
+        status = SolverStatus.INFEASIBLE
+    elif result.status == 2:  # Unbounded
+        status = SolverStatus.UNBOUNDED''', "R06.5", "solve_lp")
+M("c06-lp-optimal-on-iteration-limit", "C06", LP,
+  '''    elif result.status == 1:  # Iteration limit
+        status = SolverStatus.MAX_ITERATIONS''', '''    elif result.status == 1:  # Iteration limit
+        status = SolverStatus.OPTIMAL''', "R06.5", "solve_lp:OPTIMAL")
+M("c06-bounds-methods-adds-bfgs", "C06", SCIPY,
+  '''        "trust-constr",
+        "Nelder-Mead",
+    }
+
+    variables = problem.variables''', '''        "trust-constr",
+        "Nelder-Mead",
+        "BFGS",
+    }
+
+    variables = problem.variables''', "R06.3", "BOUNDS_METHODS")
+
+# ----------------------------------------------------------------------------- C10
+M("c10-le-builds-ge", "C10", EXPR,
+  '''        return _make_constraint(self, "<=", other)''', '''        return _make_constraint(self, ">=", other)''', "R10.1", "Expression.__le__")
+M("c10-matrix-ge-builds-le", "C10", MATRICES,
+  '''            >>> constraints = X >= 0  # 9 constraints
+        """
+        return _matrix_constraint(self, other, ">=")''', '''            >>> constraints = X >= 0  # 9 constraints
+        """
+        return _matrix_constraint(self, other, "<=")''', "R10.1", "MatrixVariable.__ge__")
+M("c10-normalise-rhs-minus-lhs", "C10", CONSTRAINTS,
+  '''        expr = lhs - Constant(float(rhs))''', '''        expr = Constant(float(rhs)) - lhs''', "R10.1", "_make_constraint")
+M("c10-violation-ge-wrong", "C10", CONSTRAINTS,
+  '''            return max(0.0, -value)''', '''            return max(0.0, value)''', "R10.2", "Constraint.violation")
+M("c10-jac-sign-only", "C10", SCIPY,
+  '''                    "jac": lambda x, jfn=c_jac_fn: -jfn(x).flatten(),''', '''                    "jac": lambda x, jfn=c_jac_fn: jfn(x).flatten(),''', "R10.4", "record[<=]")
+M("c10-fun-sign-le", "C10", SCIPY,
+  '''                    "fun": lambda x, fn=c_fn: -float(fn(x)),
+                    "jac": lambda x, jfn=c_jac_fn: -jfn(x).flatten(),''', '''                    "fun": lambda x, fn=c_fn: float(fn(x)),
+                    "jac": lambda x, jfn=c_jac_fn: jfn(x).flatten(),''', "R10.4", "record[<=]")
+M("c10-late-binding", "C10", SCIPY,
+  '''                    "type": "eq",
+                    "fun": lambda x, fn=c_fn: float(fn(x)),''', '''                    "type": "eq",
+                    "fun": lambda x: float(c_fn(x)),''', "R10.4")
+M("c10-matrix-constraint-transposed", "C10", MATRICES,
+  '''                    _make_constraint(left_exprs[i][j], sense, right._variables[i][j])''', '''                    _make_constraint(left_exprs[i][j], sense, right._variables[j][i])''', "R10.3", "_matrix_constraint")
+M("c10-post-init-accepts-anything", "C10", CONSTRAINTS,
+  '''        if self.sense not in ("<=", ">=", "=="):''', '''        if self.sense not in ("<=", ">=", "==", "=<", "=>"):''', "R10.1", "Constraint.__post_init__")
